@@ -58,6 +58,7 @@ def finish(prop, tier, seed, mod, results, herrs, wall, known, extra_lines=()):
         known_hits.update(r.get("known_hits", {}))
     rc = 0
     lines = []
+    viols.sort(key=lambda r: (0 if r.get("minimized") else 1, r["family"], r["idx"]))
     for r in viols[:3]:
         m = r.get("minimized") or r
         path = core.write_replay(prop, r["family"], r["idx"], seed, tier, r, m, r.get("shrink_runs", 0), env.repo_state())
